@@ -19,7 +19,7 @@ PROP_V = "Properties/C15.v"
 
 FIXED = ["e2e", "unaligned", "prefix", "tickets", "wrong", "truncated", "headers", "window", "empty",
          "cuttiles", "interleave2", "interleave3", "big", "faultpos", "faultpos2", "restarts", "restarts2",
-         "gcruns", "gcruns2"]
+         "gcruns", "gcruns2", "retryolder", "retry", "retry2"]
 
 TRUSTED = [
     "Coq 8.16.1 kernel (coqc; vm_compute in the Examples of Mirror/Ideal.v)",
@@ -44,7 +44,7 @@ RULE = ("one evaluation = one history (event list) run against the real witness+
         "errors, re-upload window (8*256) and start > next, [n,n) commits incl. the empty tree, commits behind nextEntry "
         "(ensureCutTiles from the full tile and from a wider partial), 2 and 3 interleaved uploads incl. overtaking and commit "
         "races, a 66,500-entry log crossing 65,536 with gc and re-upload across the boundary), every fault kind at every "
-        "operation position of two base scripts, a restart / a gc run before every event of two base scripts, and random "
+        "operation position of two base scripts, the same with a client that retries the failed request (same range / ticket / body) once or twice with the fault cleared, incl. a script where a ticket commits an older pending checkpoint at a mid-tile size while a later upload is in flight, optionally followed by a restart + resumption, a restart / a gc run before every event of two base scripts, and random "
         "histories (random logs of 300-1500 entries, 0-2 concurrent uploads, faults, restarts, gc); non-trivial = contains a "
         "fault, a restart, a gc run, a non-200 answer or an interleaving; distinct by digest of the history")
 
@@ -53,7 +53,9 @@ def run_job(hexe, mexe, args, tag):
     """returns dict(text, impl, model, err)"""
     out = os.path.join(L.BUILD, "hist", "C15_%s.txt" % tag)
     os.makedirs(os.path.dirname(out), exist_ok=True)
-    rc, log, dt = L.run([hexe] + args + ["-out=" + out], timeout=900)
+    e = L.env()
+    e["GOMAXPROCS"] = "2"   # many harness processes run side by side
+    rc, log, dt = L.run([hexe] + args + ["-out=" + out], timeout=900, env_=e)
     if rc != 0:
         return {"err": "harness rc=%d args=%s\n%s" % (rc, args, log[-3000:]), "args": args}
     text = open(out).read()
@@ -109,9 +111,21 @@ def main(tier, seed, replay):
             args = first.split("args:", 1)[1].split() if "args:" in first else ["-seed=%d" % seed]
             jobs.append((args, "replay"))
         else:
-            nrand = 40 if tier == "quick" else 400
-            for sc in FIXED:
-                jobs.append((["-seed=%d" % seed, "-scenario=" + sc, "-n=0"], "%d_%s" % (seed, sc)))
+            nrand = 24 if tier == "quick" else 400
+            # quick: the retry enumerations place the same faults as faultpos/faultpos2 (and add the retries)
+            fixed = [sc for sc in FIXED if tier != "quick" or sc not in ("faultpos", "faultpos2")]
+            split = {"retryolder": 3, "retry": 2, "retry2": 1, "faultpos": 2, "faultpos2": 2}
+            small = [sc for sc in fixed if sc not in split and sc not in ("big", "restarts", "restarts2", "gcruns", "gcruns2")]
+            groups = [["big"]] + [[sc] for sc in fixed if sc in split] + \
+                     [[sc for sc in ("restarts", "gcruns2") if sc in fixed], [sc for sc in ("restarts2", "gcruns") if sc in fixed],
+                      small[::2], small[1::2]]
+            for g in groups:
+                if not g:
+                    continue
+                n = split.get(g[0], 1)
+                for i in range(n):
+                    jobs.append((["-seed=%d" % seed, "-scenario=" + ",".join(g), "-n=0"] + (["-part=%d/%d" % (i, n)] if n > 1 else []),
+                                 "%d_%s_%d" % (seed, g[0], i)))
             chunks = 4 if tier == "quick" else 16
             for k in range(chunks):
                 jobs.append((["-seed=%d" % (seed * 1000 + k), "-scenario=random", "-n=%d" % (nrand // chunks)],
@@ -122,7 +136,7 @@ def main(tier, seed, replay):
                         jobs.append((["-seed=%d" % (seed + 7919 * k), "-scenario=" + sc, "-n=0"], "%d_%s_%d" % (seed, sc, k)))
         with cf.ThreadPoolExecutor(max_workers=min(8, L.NCPU)) as ex:
             results = list(ex.map(lambda j: run_job(hexe, mexe, j[0], j[1]), jobs))
-        shown_diff = False
+        first_diff, seen_mon = None, set()
         for r in results:
             if "err" in r:
                 p = L.write_replay(PROP, "harness_failure.txt", "args: %s\n%s" % (" ".join(r["args"]), r["err"]))
@@ -154,9 +168,11 @@ def main(tier, seed, replay):
                 mon_kinds[f[1]] = mon_kinds.get(f[1], 0) + 1
                 if not m.endswith("|holds"):
                     nmonfail += 1
-                    if nmonfail <= 3:
-                        hs = f[2] if len(f) > 2 else "?"
-                        hist = [h for h in split_hist(lines) if h and h[0].startswith("ev|reset|%s|" % hs)]
+                    if m in seen_mon:
+                        continue
+                    seen_mon.add(m)
+                    if len(seen_mon) <= 3:
+                        hist = [h for h in split_hist(lines) if m in h]
                         p = L.write_replay(PROP, "monitor_%s_%s.txt" % (f[1], L.digest(m)),
                                            "args: %s\nproperty monitor %s failed on the implementation: %s\nhistory (replay: ./check C15 --replay <this file>):\n%s\n"
                                            % (" ".join(r["args"]), f[1], m, "\n".join(hist[-1] if hist else lines[:400])))
@@ -166,14 +182,21 @@ def main(tier, seed, replay):
             if len(hi) != len(hm):
                 bad.append((-1, ["%d histories" % len(hi)], ["%d histories" % len(hm)]))
             ndiff += len(bad)
-            if bad and not shown_diff and nmonfail == 0:
-                shown_diff = True
-                k, a, b = bad[0]
-                j = next((i for i in range(max(len(a), len(b))) if i >= len(a) or i >= len(b) or a[i] != b[i]), 0)
-                p = L.write_replay(PROP, "correspondence.txt",
-                                   "args: %s\nmirror model <-> implementation correspondence no longer checks (%d histories differ in this job); the monitors found no history on which the property itself fails.\nfirst difference (history line %d):\nimpl : %s\nmodel: %s\n\nhistory:\n%s\n"
-                                   % (" ".join(r["args"]), len(bad), j, a[j] if j < len(a) else "<end>", b[j] if j < len(b) else "<end>", "\n".join(x[:400] for x in a)))
-                res.violation(p, "model/implementation correspondence broken (%d histories)" % len(bad), no_input=True)
+            if bad and first_diff is None:
+                first_diff = (r["args"], bad)
+        if first_diff is not None:
+            args, bad = first_diff
+            k, a, b = bad[0]
+            j = next((i for i in range(max(len(a), len(b))) if i >= len(a) or i >= len(b) or a[i] != b[i]), 0)
+            text = ("args: %s\nmirror model <-> implementation correspondence no longer checks (%d histories differ in total)%s\nfirst difference (history line %d):\nimpl : %s\nmodel: %s\n\nhistory:\n%s\n"
+                    % (" ".join(args), ndiff,
+                       "; the monitors found no history on which the property itself fails." if nmonfail == 0 else "; see the monitor failures for histories on which the property itself fails.",
+                       j, a[j] if j < len(a) else "<end>", b[j] if j < len(b) else "<end>", "\n".join(x[:400] for x in a)))
+            p = L.write_replay(PROP, "correspondence.txt", text)
+            if nmonfail == 0:
+                res.violation(p, "model/implementation correspondence broken (%d histories)" % ndiff, no_input=True)
+            else:
+                print("# note: the model/implementation correspondence is also broken (%d histories): %s" % (ndiff, p))
     th.join()
     tp.join()
     ok, cov = pst.get("r", (False, {}))
